@@ -233,6 +233,64 @@ def run(out, tier, seed, proof):
                 last.setdefault(name, []).append((mt, cont))
     if res[-1][1][0] != hashlib.sha256(b"\x01").hexdigest():
         out.violation("content changed under an unchanged modification time is not seen", {"sequence": f5, "returned": res[-1]}, finding_matchers=("F5",))
+    # ---- identity of collected path nodes: Hashing.collected_path vs real collection
+    SUBS = ["", "src", "src/a", "x.y"]
+    TARGETS = ["bld/x.txt", "bld/y.txt", "src/x.txt", "x.txt"]
+    def spell(rng, sub, target):
+        """a declaration naming {R}/target from a module in {R}/sub"""
+        up = "/".join([".."] * len([c for c in sub.split("/") if c]))
+        rel = (up + "/" if up else "") + target
+        k = rng.random()
+        if k < 0.25:
+            return rel
+        if k < 0.4:
+            return "./" + rel
+        if k < 0.55:
+            return "zz/../" + rel
+        if k < 0.7:
+            return "{R}/" + target
+        if k < 0.85:
+            return "{R}/sub/../" + target
+        return "{R}/./" + target.replace("/", "//", 1)
+    ccases = []
+    for _ in range(12 if tier == "quick" else 120):
+        decls = []
+        for _ in range(rng.randint(2, 6)):
+            sub = rng.choice(SUBS)
+            decls.append([sub, rng.choice(["path", "node", "node", "pickle"]), spell(rng, sub, rng.choice(TARGETS))])
+        ccases.append(decls)
+    cres = run_impl_worker("impl_hash.py", {"collect": ccases})["collect"]
+    cterms = []
+    for decls in ccases:
+        for sub, kind, decl in decls:
+            d = "/R" + ("/" + sub if sub else "")
+            cterms.append(([ord(c) for c in d], [ord(c) for c in decl.replace("{R}", "/R")]))
+    cmodel = coq_eval_cases("c12c", IMPORTS, "fun c => collected_path (fst c) (snd c)", cterms, shard=400)
+    mi = 0
+    for decls, r in zip(ccases, cres):
+        out.case({"declarations": decls}, nontrivial=True)
+        out.count("collect_projects")
+        mp = []
+        for _ in decls:
+            mp.append("".join(chr(x) for x in cmodel[mi])); mi += 1
+        if "error" in r:
+            out.disagreement("collection of path declarations did not return", {"declarations": decls, "error": r["error"]}); continue
+        # two declarations of one file as products of two tasks: the project is rejected (exit 4) but collected
+        got = [r["nodes"].get(f"task_d{i}") for i in range(len(decls))]
+        for i, (dcl, g) in enumerate(zip(decls, got)):
+            if g is None:
+                out.disagreement("a declared task was not collected", {"declarations": decls, "index": i}); continue
+            if g[0] != mp[i]:
+                out.disagreement("collected path differs from Hashing.collected_path", {"declaration": dcl, "impl": g[0], "model": mp[i]})
+        for i in range(len(decls)):
+            for j in range(i + 1, len(decls)):
+                if got[i] is None or got[j] is None or decls[i][1] == "pickle" or decls[j][1] == "pickle":
+                    continue
+                same_file = mp[i] == mp[j]
+                same_node = got[i][1] == got[j][1]
+                if same_file != same_node:
+                    out.violation("two declarations " + ("of the same file are different graph nodes" if same_file else "of different files are one graph node"),
+                                  {"a": decls[i], "b": decls[j], "normalised": [mp[i], mp[j]], "collected": [got[i][0], got[j][0]]})
     out.evaluations += 1
     out.sample({"value": vals[40], "model": str(model[40])[:200]})
     out.sample({"signature_case": sigs[3]})
